@@ -59,7 +59,9 @@ DefinitionOK == Ran => \A i \in 1..Len(R) : \A k \in Defs : R[i].id = C.ops[k].i
    LET op == C.ops[k]
        c == LatestBefore(C.ops, k, op.u)
        r == R[i]
-   IN IF c = 0 THEN r.err \/ Len(r.locs) = 0          \* not open: nothing to answer from
+       cancelled == \E j \in 1..Len(C.ops) : C.ops[j].k = "cancel" /\ C.ops[j].id = op.id
+   IN IF cancelled /\ r.err THEN TRUE                   \* a cancelled request may be answered with an error
+      ELSE IF c = 0 THEN r.err \/ Len(r.locs) = 0          \* not open: nothing to answer from
       ELSE LET T == C.T[c] IN
            ValidPos(T, op.line, op.ch) =>
              LET under == IdsAt(T, op.line, op.ch)
